@@ -312,7 +312,7 @@ func init() {
 	natives["github.com/ipfs/go-path.ParsePath"] = func(m *Machine, c *frame, fn *ssa.Function, a []Value) Value {
 		s := m.term(a[0])
 		if s.Const {
-			if fn.Blocks == nil && fn.Pkg != nil {
+			if fn.Pkg != nil { // Build is once-guarded and waits for a build in progress on another worker
 				fn.Pkg.Build()
 			}
 			return m.callSSA(c, fn, a, nil)
